@@ -73,6 +73,7 @@ type R struct {
 	KEs   []KV
 	Op    string // cmp or arith operator text
 	Args  []Arg
+	Bare  bool // an index on the current node written without "@": [0] instead of @[0]
 }
 
 const (
@@ -267,7 +268,11 @@ func show(p int, e *R) string {
 	case KSub:
 		body = show(lPost, e.L) + "." + show(lPost, e.Rt)
 	case KIndex:
-		body = show(lPost, e.L) + "[" + strconv.FormatInt(e.I, 10) + "]"
+		if e.Bare && e.L.K == KCurrent {
+			body = "[" + strconv.FormatInt(e.I, 10) + "]"
+		} else {
+			body = show(lPost, e.L) + "[" + strconv.FormatInt(e.I, 10) + "]"
+		}
 	case KProj:
 		left := ""
 		if e.L.K != KCurrent {
@@ -445,13 +450,25 @@ func coqR(e *R) string {
 }
 
 // constructors
-func cur() *R                  { return &R{K: KCurrent} }
-func fld(n string) *R          { return &R{K: KField, Name: n} }
-func lit(v any) *R             { return &R{K: KLiteral, Lit: v} }
-func litJ(s string) *R         { return &R{K: KLiteral, Lit: jsonDoc(s)} }
-func raw(s string) *R          { return &R{K: KRaw, Name: s} }
-func sub(l, r *R) *R           { return &R{K: KSub, L: l, Rt: r} }
-func idx(l *R, i int64) *R     { return &R{K: KIndex, L: l, I: i} }
+func cur() *R          { return &R{K: KCurrent} }
+func fld(n string) *R  { return &R{K: KField, Name: n} }
+func lit(v any) *R     { return &R{K: KLiteral, Lit: v} }
+func litJ(s string) *R { return &R{K: KLiteral, Lit: jsonDoc(s)} }
+func raw(s string) *R  { return &R{K: KRaw, Name: s} }
+func sub(l, r *R) *R   { return &R{K: KSub, L: l, Rt: r} }
+
+// an index on the current node has two spellings, "@[n]" and the bare "[n]" (which the parser compiles to a
+// node of its own): they alternate
+var bareIndexCount int
+
+func idx(l *R, i int64) *R {
+	b := false
+	if l != nil && l.K == KCurrent {
+		bareIndexCount++
+		b = bareIndexCount%2 == 0
+	}
+	return &R{K: KIndex, L: l, I: i, Bare: b}
+}
 func proj(k PKind, l, r *R) *R { return &R{K: KProj, PK: k, L: l, Rt: r} }
 func filt(l, c, r *R) *R       { return &R{K: KProj, PK: PFilter, L: l, Cond: c, Rt: r} }
 func slc(l *R, a, b, c *int64, r *R) *R {
